@@ -3,6 +3,7 @@ C03 — flattened (child/parent) mappings are faithful; each nested struct is bu
 -/
 import O2oModel.Props.C01
 import O2oModel.Lemmas.Tree
+import O2oModel.Lemmas.TreeN
 namespace O2o
 
 /-- C03-2 (From side): a field marked `#[child(a.b)]` is read from `value.a.b.<field>` (named counterpart, default
@@ -162,5 +163,52 @@ theorem C03_child_members_all_and_only (ctx : ImplContext) (named : Bool) (cp : 
        | .ok ls => .ok (frags ++ ls, rest)
        | .error e => .error e) :=
   loop_leaf_block ctx named cp crc d pfx hpfx hint hk block rest fuel frags idx hf hb hrest
+
+/-! ### each nested struct is built once (any depth) -/
+
+/-- **C03-1, any depth, any number of members and nested structs.** When the sorted member list forms a tree —
+    `NodeList.WF`: every member rendered at a level sits exactly at that level; every nested struct starts with a
+    contributing member whose `#[child(..)]` path goes deeper, is listed in `#[child_parents(..)]`, holds the nodes of
+    its own level, and is followed by a member that does not belong to it (its members are contiguous) — the Into body
+    is `NodeList.spec`: one fragment per node in order, and a nested struct is exactly **one** construction
+    `name: Type { fragments of its own nodes, its ghosts, ..update },`, recursively. So every intermediate struct is
+    constructed exactly once and receives all and only its own members, at every depth. (When sibling subtrees are
+    interleaved the member list is *not* such a tree and the statement is false of the code — known finding
+    C03-interleaved-sibling-subtrees.) -/
+theorem C03_once_any_depth (ctx : ImplContext) (named : Bool) (hint : TypeHint)
+    (hk : ctx.kind.cls = .into) (cpa : ChildParentsAttr) (hcpa : ctx.input.attrs.childParentsAttr ctx.ty = some cpa)
+    (nr : Bool) (hnr : ctx.input.namedFields = .ok nr) (ns : NodeList) (fuel : Nat) (frags : TS) (idx : Nat)
+    (hf : ns.weight + 1 < fuel) (hwf : NodeList.WF ctx cpa none none ns) :
+    structInitLoop fuel ns.flatten named ctx none hint frags idx =
+      (match NodeList.spec ctx nr none hint ns idx with
+       | .ok ts => .ok (frags ++ ts, [])
+       | .error e => .error e) := by
+  have := loop_nodes ctx hk cpa hcpa nr hnr ns named none hint [] fuel frags idx hf (by simpa using hwf) rfl
+  simp only [List.append_nil] at this
+  rw [this]
+  cases NodeList.spec ctx nr none hint ns idx <;> rfl
+
+/-- non-vacuity: the two-level tree `a { a.b { f1 }, f2 }` is well formed as soon as the members carry those paths -/
+example (ctx : ImplContext) (cpa : ChildParentsAttr) (fc1 fc2 : FieldContainer) (f1 f2 : Field) (ca1 ca2 : ChildAttr)
+    (cdA cdAB : ChildParentData)
+    (h1 : f1.attrs.child ctx.ty = some ca1) (hs1 : ca1.childPath.strs = ["a", "a.b"]) (p1 : fc1.path = "a.b")
+    (fd1 : fc1.fieldData = .field f1) (ns1 : fieldSkipped ctx f1 = false)
+    (h2 : f2.attrs.child ctx.ty = some ca2) (hs2 : ca2.childPath.strs = ["a"]) (p2 : fc2.path = "a") (fd2 : fc2.fieldData = .field f2)
+    (hfA : cpa.childParents.find? (fun cd => cd.fieldPathStr == "a") = some cdA)
+    (hfAB : cpa.childParents.find? (fun cd => cd.fieldPathStr == "a.b") = some cdAB)
+    (hm1 : pathMatches "a.b" "a" = true) (hm2 : pathMatches "a" "a.b" = false) :
+    NodeList.WF ctx cpa none none
+      (.cons (.sub (.cons (.sub (.cons (.leaf fc1 f1) .nil) cdAB) (.cons (.leaf fc2 f2) .nil)) cdA) .nil) := by
+  refine ⟨trivial, ⟨(fc1, f1), ca1, "a", rfl, fd1, h1, ns1, trivial, by simp [ChildPath.getStr, hs1, newDepthOf], hfA, ?_, ?_⟩, trivial⟩
+  · intro fc h; simp [afterOf, NodeList.flatten] at h
+  · refine ⟨⟨"a", (fc1, f1), by simp [ChildPath.getStr, hs1], rfl, by simpa [p1] using hm1⟩, ?_, ?_⟩
+    · refine ⟨(fc1, f1), ca1, "a.b", rfl, fd1, h1, ns1, by simp [hs1], by simp [ChildPath.getStr, hs1, newDepthOf], hfAB, ?_, ?_⟩
+      · intro fc h
+        simp [afterOf, NodeList.flatten, Node.flatten] at h
+        subst h; simpa [p2] using hm2
+      · refine ⟨⟨"a.b", (fc1, f1), by simp [ChildPath.getStr, hs1, newDepthOf], rfl, by simp [p1, pathMatches]⟩, ?_, trivial⟩
+        exact ⟨fd1, "a.b", ca1, by simp [ChildPath.getStr, hs1, newDepthOf], p1, h1, by simp [hs1, newDepthOf]⟩
+    · refine ⟨⟨"a", (fc2, f2), by simp [ChildPath.getStr, hs1], rfl, by simp [p2, pathMatches]⟩, ?_, trivial⟩
+      exact ⟨fd2, "a", ca2, by simp [ChildPath.getStr, hs1], p2, h2, by simp [hs2, newDepthOf]⟩
 
 end O2o
